@@ -32,3 +32,11 @@ CHECKS["C05"] = {"level": "model_checking", "design_ref": "DESIGN.md section 5 /
   "technique": "trace validation by TLC (OpenTrace.tla): exact windings at sample points on the open subjects + Fill!KeepOpen decide kept/dropped; integer-sqrt length brackets; closed solution with vs without open subjects",
   "text": "For every recorded Execute with open subjects TLC decides, at 9 sample points per open segment that are clear of closed edges, whether the point must be in the open solution, that every solution vertex/midpoint lies on an open subject, that the total length is within 3 units per cut of the exact kept length (bracketed), and that the closed region is unchanged by the open subjects; inputs are random general-position closed sets with 1-3 open polylines, all clip types x fill rules x paths/tree on two builds.",
   "note": TRUST}
+CHECKS["C06"] = {"level": "model_checking", "design_ref": "DESIGN.md section 5 / C06",
+  "technique": "trace validation by TLC (OffsetTrace.tla): every sample point classified from signed-distance bounds per join type (integer geometry in quarter units, sufficient conditions only) and compared with the measured winding of the library's result",
+  "text": "For each recorded offsetting call on a TLC-certified simple polygon with holes TLC decides per sample point whether it must / must not be covered (round: |delta| +- tol; miter/square: between round(|delta|) and round(|delta| x limit); bevel: polygon moved along its edge normals vs round result), checks orientation preservation, the insignificant-delta and beyond-inradius clauses. Sampled exploration over polygons x deltas x join types x miter limits x arc tolerances with the property's own tolerance band rounded outward; errors of a few per cent of delta inside the band are invisible at these sizes.",
+  "note": TRUST}
+CHECKS["C07"] = {"level": "model_checking", "design_ref": "DESIGN.md section 5 / C07",
+  "technique": "trace validation by TLC (OffsetTrace.tla): per join/end type stroke bounds (lateral strips, |delta|-neighbourhood for round/square/miter joins, half-disc and prolonged caps, butt end planes, joined = closed polyline) classify sample points; +delta vs -delta identity",
+  "text": "For each recorded open-path offsetting call (1-3 far-apart polylines incl. single points and 2-point paths, TLC-certified turning angles) TLC classifies sample points as must / must-not / free per join and end type and compares with the measured winding; the result for -delta must be identical. Mixtures and orders within one call are covered by C12's ClipperOffset histories.",
+  "note": TRUST}
